@@ -157,14 +157,16 @@ PROPS["C15"] = {
              "DelDestination / UpdateDestination(addr=...) (the last re-points a destination to a listening loopback endpoint with a fresh "
              "instance, as modDest does; a connected destination is observed at its endpoint): after every change the assignment must again equal "
              "the reference ring of the destinations now configured; after add only keys landing on the new node moved, after remove only keys the "
-             "removed node owned, after re-pointing only keys of the old or the new node. Non-trivial: "
+             "removed node owned, after re-pointing only keys of the old or the new node. concurrent_lookup: 2-8 goroutines look up / dispatch "
+             "50-1500 fresh keys each at the same time, first at the hasher (every answer compared with the reference ring), then through the real "
+             "route (per-destination hand-off counts must equal the reference ring's). Non-trivial: "
              "ring with >=1 collision and a key on a collided position or wrapping (churn: >=2 nodes and >=1 key moved). Distinct = hash(nodes, keys)."),
     "level_text": "Differential property testing against an independent re-implementation of Carbon's ring (cross-checked with CPython) plus metamorphic relations (order independence, minimal disruption); holds on all generated rings/keys.",
     "level_note": "Carbon 0.9.x ring (no collision bumping); the >=1.0 variant is order-dependent and cannot be what 'in any order' means. DNS-like hosts are only exercised at hasher level (no resolver offline); the route-level check uses loopback literals.",
     "technique": "property-based testing (rapid): differential oracle vs re-implemented and CPython-run carbon ring; metamorphic add/remove/permutation relations",
     "assumptions": ["carbon 0.9.x lib/carbon/hashing.py is the reference"],
-    "quick": [R("TestPropHasherVsCarbon", 400), R("TestPropRouteAssignAndChurn", 150)],
-    "thorough": [R("TestPropHasherVsCarbon", 5000, shards=10, timeout=2400), R("TestPropRouteAssignAndChurn", 2000, shards=6, timeout=2400)],
+    "quick": [R("TestPropHasherVsCarbon", 400), R("TestPropRouteAssignAndChurn", 150), R("TestPropConcurrentLookup", 150)],
+    "thorough": [R("TestPropHasherVsCarbon", 5000, shards=8, timeout=2400), R("TestPropRouteAssignAndChurn", 2000, shards=6, timeout=2400), R("TestPropConcurrentLookup", 4000, shards=2, timeout=2400)],
 }
 
 PROPS["C16"] = {
